@@ -159,6 +159,20 @@ theorem C12_die_dup_header_name (o : Opts) (cs : List Chunk) (preB : List Block)
     (by simp only [List.length_cons, List.length_append, List.length_map, List.length_nil]; omega) trivial
     (fun _ _ _ => ⟨_, _, _, rfl, rfl⟩) (fun hv => die_dup_header_name o hv true ns1 n' [] _ hwf hfresh hnd hname hdup)
 
+/-- **C12_die_missing_delim_list** — an item whose list value is not closed (`_n [ v₁ … vₖ` followed by a token that cannot
+    continue the list, or by the end of the input): the report is made while the value is parsed — the item is not stored -/
+theorem C12_die_missing_delim_list (o : Opts) (cs : List Chunk) (preB : List Block) (bc : Str) (pre : List Item) (n btx : Str)
+    (vs : List Val) (rest : List TokSpec)
+    (H : DieHost o cs preB bc (itemsToks pre ++ ((.name, n) :: (.olist, btx) :: valsToks vs)) rest)
+    (hpre : wfItems o pre [] = true) (hname : wfName n = true)
+    (hfresh : o.norm n ∉ normNames o (denoteItems o.dia o.normKey pre [])) (hw : wfVals o vs = true) (hrest : restOk rest) :
+    DieOutcome o cs CIF_MISSING_DELIM (denote o.dia o.normKey (preB ++ [plainBlock bc pre]))
+      ((blocksToks preB).length + 1 + ((itemsToks pre).length + (1 + (1 + (valsToks vs).length)))) := by
+  have z := Lemmas.WriterChunks.szVals_toks vs
+  exact C12_die_items pre H CIF_MISSING_DELIM (1 + (1 + (valsToks vs).length)) (szVals vs + 2 + 1) termFollow hpre (by decide)
+    (by simp only [List.length_cons]; omega) (by simp only [List.length_cons]; omega) hrest.follow
+    (fun _ _ _ => ⟨_, _, _, rfl, rfl⟩) (fun hv => die_missing_delim_list o hv true n btx vs [] _ hname hfresh hw)
+
 /-! ### among the items of a save frame of a data block -/
 
 /-- a defect behind the items `pre` of the save frame `fc`, which stands behind the well-formed elements `preE` of the data block
